@@ -7,10 +7,10 @@ def DView : Pc → Pc
   | .pCons k n => .pCons k n
   | .pLoad k n | .pE1 k n | .pF3 k n => .pLoad k n
   | .pF1 k n _ | .pF2 k n _ | .pB1 k n _ | .pB2 k n _ => .pLoad k n
-  | .eMark c _ | .eBack c _ => .eMark c none
-  | .eNext c _ _ => .eMark c none
-  | .eUnl c _ _ _ => .eMark c none
-  | .eFix c _ _ _ => .eAlloc c none
+  | .eMark c _ z | .eBack c _ z => .eMark c none z
+  | .eNext c _ _ z => .eMark c none z
+  | .eUnl c _ _ _ z => .eMark c none z
+  | .eFix _ _ _ _ z => .eZh none z
   | .eAlloc c _ => .eAlloc c none
   | .eCons c _ _ => .eAlloc c none
   | .eZh _ z => .eZh none z
@@ -55,7 +55,7 @@ def NoRec (d : DSt) (c : Nat) : Prop := ∀ x, d.rled x = .cons → d.zn x ≠ s
 def HeldP (d : DSt) : Pc → Prop
   | .pCons _ n => d.nled n = .alloc
   | .pLoad _ n => d.nled n = .cons
-  | .eMark c _ => NoRec d c ∧ d.nled c = .cons
+  | .eMark c _ z => d.zn z = some c ∧ d.nled c = .cons
   | .eAlloc c _ => NoRec d c ∧ d.nled c = .cons
   | .eZh _ z => ∃ c, d.zn z = some c ∧ d.nled c = .cons
   | .regCons _ r => d.zn r = none
@@ -70,7 +70,9 @@ def HeldP (d : DSt) : Pc → Prop
 structure InvDv (d : DSt) : Prop where
   cntN : ∀ n, d.nled n = .none ↔ d.nN ≤ n
   lstCons : ∀ n ∈ d.lst, d.nled n = .cons ∨ ∃ t, d.vpc t = .dFreN n none
-  zdel : ∀ x c, d.rled x = .cons → d.zn x = some c → d.del c = true ∧ c ∈ d.order ∧ c ∉ d.lst
+  /-- a constructed record names an unlinked node, except the record of an `erase` that has not unlinked its node yet -/
+  zdel : ∀ x c, d.rled x = .cons → d.zn x = some c →
+    (d.del c = true ∧ c ∈ d.order ∧ c ∉ d.lst) ∨ ∃ t, d.vpc t = .eMark c none x
   zinj : ∀ x y c, d.rled x = .cons → d.rled y = .cons → d.zn x = some c → d.zn y = some c → x = y
   znOrd : ∀ x c, d.zn x = some c → c ∈ d.order
   zlog : ∀ x ∈ d.log, ∀ c, d.zn x = some c → d.nled c = .cons
@@ -111,7 +113,7 @@ namespace ConcVerif.Rcu
 def Mentions (d : DSt) (v : Pc) (n0 : Nat) : Prop :=
   match v with
   | .pCons _ n | .pLoad _ n => n = n0
-  | .eMark c _ | .eAlloc c _ => c = n0
+  | .eMark c _ _ | .eAlloc c _ => c = n0
   | .eZh _ z => d.zn z = some n0
   | .rZn _ m | .rNext _ m => d.zn m = some n0
   | .rDesN _ _ c | .rFreN _ _ c => c = n0
@@ -145,7 +147,7 @@ theorem invD_gen {s s' : St} {t : Tid} (h : InvD s) (p' : Pc)
     (h4 : ∀ c, c ∈ s.order → (s.nodes c).deleted = true → (s'.nodes c).deleted = true)
     (h5 : s'.nN = s.nN)
     (h6a : ∀ x ∈ s'.lst, x ∈ s.lst ∨ (s.nled x = .cons ∧ x ∉ s.order))
-    (h6b : ∀ x ∈ s.lst, x ∈ s'.lst ∨ DView p' = .eAlloc x none)
+    (h6b : ∀ x ∈ s.lst, x ∈ s'.lst ∨ ∃ z, s'.rled z = .cons ∧ (s.recs z).znode = some x)
     (h7 : ∀ x ∈ s.order, x ∈ s'.order)
     (h8 : ∀ x ∈ s'.log, x ∈ s.log ∨ ∀ c, (s.recs x).znode = some c → s.nled c = .cons)
     (h9 : s'.pc = upd s.pc t p')
@@ -153,7 +155,10 @@ theorem invD_gen {s s' : St} {t : Tid} (h : InvD s) (p' : Pc)
     (hlst : ∀ n, DView (s.pc t) = .dFreN n none → DView p' = .dFreN n none ∨ s.nled n = .cons ∨ n ∉ s'.lst)
     (hcls : ∀ n, ((∃ k, DView (s.pc t) = .pCons k n ∨ DView (s.pc t) = .pLoad k n) ∨ DView (s.pc t) = .eAlloc n none) →
       ((∃ k, DView p' = .pCons k n ∨ DView p' = .pLoad k n) ∨ DView p' = .eAlloc n none) ∨
-        s.nled n = .freed ∨ n ∈ s'.lst ∨ ∃ x, s'.rled x = .cons ∧ (s.recs x).znode = some n) : InvD s' := by
+        s.nled n = .freed ∨ n ∈ s'.lst ∨ ∃ x, s'.rled x = .cons ∧ (s.recs x).znode = some n)
+    (hzd : ∀ c z, DView (s.pc t) = .eMark c none z →
+      DView p' = .eMark c none z ∨ ((s'.nodes c).deleted = true ∧ c ∈ s'.order ∧ c ∉ s'.lst) := by
+        intro c z hv; first | (exact Or.inl hv) | (simp_all [DView]; done)) : InvD s' := by
   obtain ⟨d1, d2, d3, d4, d8, d5, d6, d7⟩ := h
   simp only [dview_nled, dview_rled, dview_zn, dview_del, dview_nN, dview_lst, dview_order, dview_log, dview_vpc] at *
   have hzn : s'.dview.zn = s.dview.zn := by funext x; exact h3 x
@@ -174,12 +179,18 @@ theorem invD_gen {s s' : St} {t : Tid} (h : InvD s) (p' : Pc)
         · exact Or.inr ⟨u, by rw [upd_other _ _ _ _ hut]; exact hu⟩
     · exact Or.inl g.1
   · intro x c hx hc
-    obtain ⟨e1, e2, e3⟩ := d3 x c (h2 x hx) hc
-    refine ⟨h4 c e2 e1, h7 c e2, ?_⟩
-    intro hm
-    rcases h6a c hm with g | g
-    · exact e3 g
-    · exact g.2 e2
+    rcases d3 x c (h2 x hx) hc with ⟨e1, e2, e3⟩ | ⟨u, hu⟩
+    · refine Or.inl ⟨h4 c e2 e1, h7 c e2, ?_⟩
+      intro hm
+      rcases h6a c hm with g | g
+      · exact e3 g
+      · exact g.2 e2
+    · by_cases hut : u = t
+      · subst hut
+        rcases hzd c x hu with g | g
+        · exact Or.inr ⟨u, by rw [upd_same]; exact g⟩
+        · exact Or.inl g
+      · exact Or.inr ⟨u, by rw [upd_other _ _ _ _ hut]; exact hu⟩
   · intro x y c hx hy; exact d4 x y c (h2 x hx) (h2 y hy)
   · intro x c hc; exact h7 c (d8 x c hc)
   · intro x hx c hc
@@ -198,16 +209,12 @@ theorem invD_gen {s s' : St} {t : Tid} (h : InvD s) (p' : Pc)
       by_cases hc : s'.rled x = .cons
       · exact Or.inr ⟨x, hc, hx2⟩
       · exact Or.inl (h2' x hx1 hc n hx2)
-    have lstc : n ∈ s.lst → n ∈ s'.lst ∨ (∃ u, DView (upd s.pc t p' u) = .eAlloc n none) := by
-      intro hl
-      rcases h6b n hl with g | g
-      · exact Or.inl g
-      · exact Or.inr ⟨t, by rw [upd_same]; exact g⟩
+    have lstc : n ∈ s.lst → n ∈ s'.lst ∨ ∃ z, s'.rled z = .cons ∧ (s.recs z).znode = some n := h6b n
     rcases d7 n hn with f | f | ⟨u, k, hu⟩ | ⟨x, hx1, hx2⟩ | ⟨u, hu⟩
     · exact Or.inl f
     · rcases lstc f with g | g
       · exact Or.inr (Or.inl g)
-      · exact Or.inr (Or.inr (Or.inr (Or.inr g)))
+      · exact Or.inr (Or.inr (Or.inr (Or.inl g)))
     · by_cases hut : u = t
       · subst hut
         rcases hcls n (Or.inl ⟨k, hu⟩) with (⟨k', g⟩ | g) | g | g | g
@@ -232,7 +239,7 @@ theorem invD_gen {s s' : St} {t : Tid} (h : InvD s) (p' : Pc)
 
 /-- views that belong to the mutex holder -/
 theorem dview_writer {p : Pc} (h : (∃ k n, DView p = .pCons k n ∨ DView p = .pLoad k n) ∨
-    (∃ c o, DView p = .eMark c o ∨ DView p = .eAlloc c o) ∨ (∃ o z, DView p = .eZh o z)) : holdsW p = true := by
+    (∃ c o, (∃ z, DView p = .eMark c o z) ∨ DView p = .eAlloc c o) ∨ (∃ o z, DView p = .eZh o z)) : holdsW p = true := by
   cases p with
   | pushStore c r e => cases c <;> simp [DView] at h <;> simp [holdsW]
   | pushCas c r e => cases c <;> simp [DView] at h <;> simp [holdsW]
@@ -249,6 +256,14 @@ theorem dview_priv {p : Pc} {m : Nat} (h : DView p = .rZn 0 m ∨ (∃ c, DView 
   cases p with
   | pushStore c r e => cases c <;> simp [DView] at h <;> simp [BView, privRec, privLed, h]
   | pushCas c r e => cases c <;> simp [DView] at h <;> simp [BView, privRec, privLed, h]
+  | _ => simp [DView] at h <;> simp [BView, privRec, privLed, h]
+
+/-- an `erase` between the construction of its zombie record and the unlink holds that record privately -/
+theorem dview_eMark_priv {p : Pc} {c z : Nat} (h : DView p = .eMark c none z) :
+    privRec (BView p) = some z ∧ privLed (BView p) = .cons := by
+  cases p with
+  | pushStore c r e => cases c <;> simp [DView] at h
+  | pushCas c r e => cases c <;> simp [DView] at h
   | _ => simp [DView] at h <;> simp [BView, privRec, privLed, h]
 
 theorem dview_rNext_cases {p : Pc} {m : Nat} (h : DView p = .rNext 0 m) :
@@ -317,7 +332,7 @@ theorem writer_excl {s : St} {t : Tid} (hi : Inv s) (hw : holdsW (s.pc t) = true
   cases hv : DView (s.pc u) <;> rw [hv] at hm hheld <;> simp only [Mentions, dview_zn] at hm <;> try exact hm
   case pCons k n => rw [dview_writer (Or.inl ⟨k, n, Or.inl hv⟩)] at hnw; cases hnw
   case pLoad k n => rw [dview_writer (Or.inl ⟨k, n, Or.inr hv⟩)] at hnw; cases hnw
-  case eMark c o => rw [dview_writer (Or.inr (Or.inl ⟨c, o, Or.inl hv⟩))] at hnw; cases hnw
+  case eMark c o z => rw [dview_writer (Or.inr (Or.inl ⟨c, o, Or.inl ⟨z, hv⟩⟩))] at hnw; cases hnw
   case eAlloc c o => rw [dview_writer (Or.inr (Or.inl ⟨c, o, Or.inr hv⟩))] at hnw; cases hnw
   case eZh o z => rw [dview_writer (Or.inr (Or.inr ⟨o, z, hv⟩))] at hnw; cases hnw
   case rZn a m => exact hn (hzo m n0 hm)
@@ -353,7 +368,14 @@ theorem reaper_excl {s : St} {t : Tid} (hi : Inv s) (hdt : s.dt = false) {m d : 
   cases hv : DView (s.pc u) <;> rw [hv] at hmu hheld <;> simp only [Mentions, dview_zn] at hmu <;> try exact hmu
   case pCons k n => subst hmu; exact dview_node_fresh hi.c (Or.inl hv) hdo
   case pLoad k n => subst hmu; exact dview_node_fresh hi.c (Or.inr hv) hdo
-  case eMark c o => subst hmu; simp only [HeldP, NoRec, dview_rled, dview_zn] at hheld; exact hheld.1 m hcons hz
+  case eMark c o z =>
+    subst hmu
+    simp only [HeldP, dview_zn] at hheld
+    have hv' : DView (s.pc u) = .eMark c none z := by
+      cases hp : s.pc u <;> rw [hp] at hv <;> simp [DView] at hv ⊢ <;> try exact ⟨hv.1, hv.2.2⟩
+      all_goals (rename_i c' _ _; cases c' <;> simp [DView] at hv)
+    have p1 := dview_eMark_priv hv'
+    exact key z p1.1 (by rw [(hpo z p1.1).2, p1.2]) hheld.1
   case eAlloc c o => subst hmu; simp only [HeldP, NoRec, dview_rled, dview_zn] at hheld; exact hheld.1 m hcons hz
   case eZh o z =>
     have hv' : DView (s.pc u) = .eZh none z := by
@@ -390,6 +412,33 @@ theorem reaper_excl {s : St} {t : Tid} (hi : Inv s) (hdt : s.dt = false) {m d : 
   case dNext m' => rw [dview_dtor (Or.inl ⟨m', hv⟩)] at hnd; cases hnd
   case dFreN m' o => rw [dview_dtor (Or.inr ⟨m', o, hv⟩)] at hnd; cases hnd
 
+/-- a constructed record that a thread other than a not-yet-unlinking `erase` holds privately names an unlinked node -/
+theorem zdel_priv {s : St} {t : Tid} (hi : Inv s) {m d : Nat} (hpr : privRec (BView (s.pc t)) = some m)
+    (hne : ∀ c z, DView (s.pc t) ≠ .eMark c none z) (hc : s.rled m = .cons) (hz : (s.recs m).znode = some d) :
+    (s.nodes d).deleted = true ∧ d ∈ s.order ∧ d ∉ s.lst := by
+  rcases hi.d.zdel m d hc hz with g | ⟨u, hu⟩
+  · exact g
+  · exfalso
+    simp only [dview_vpc] at hu
+    have hpu := hi.b.privUq u t m
+    simp only [bview_vpc] at hpu
+    have := hpu (dview_eMark_priv hu).1 hpr
+    subst this
+    exact hne d m hu
+
+/-- a record on the log names an unlinked node -/
+theorem zdel_log {s : St} (hi : Inv s) {x c : Nat} (hx : x ∈ s.log) (hz : (s.recs x).znode = some c) :
+    (s.nodes c).deleted = true ∧ c ∈ s.order ∧ c ∉ s.lst := by
+  have hlc := hi.b.logCons x hx
+  simp only [bview_rled] at hlc
+  rcases hi.d.zdel x c hlc hz with g | ⟨u, hu⟩
+  · exact g
+  · exfalso
+    simp only [dview_vpc] at hu
+    have := hi.b.privOk u x (by simp only [bview_vpc]; exact (dview_eMark_priv hu).1)
+    simp only [bview_log] at this
+    exact this.1 hx
+
 /-- thread `t` changes the ledger state of node `n0` (nobody else mentions `n0`) -/
 theorem invD_nled {s : St} {t : Tid} (h : InvD s) (n0 : Nat) (l : Led) (p' : Pc) (nodes' : Nat → Node)
     (hdel : ∀ c, c ∈ s.order → (s.nodes c).deleted = true → (nodes' c).deleted = true)
@@ -401,7 +450,8 @@ theorem invD_nled {s : St} {t : Tid} (h : InvD s) (n0 : Nat) (l : Led) (p' : Pc)
     (hcls0 : l = .freed ∨ n0 ∈ s.lst ∨ (∃ k, DView p' = .pCons k n0 ∨ DView p' = .pLoad k n0) ∨
       (∃ x, s.rled x = .cons ∧ (s.recs x).znode = some n0) ∨ DView p' = .eAlloc n0 none)
     (hvT : ∀ n, ((∃ k, DView (s.pc t) = .pCons k n ∨ DView (s.pc t) = .pLoad k n) ∨ DView (s.pc t) = .eAlloc n none ∨
-      DView (s.pc t) = .dFreN n none) → n = n0) :
+      DView (s.pc t) = .dFreN n none) → n = n0)
+    (hne : ∀ c z, DView (s.pc t) ≠ .eMark c none z := by intro c z hv; simp_all [DView]; done) :
     InvD (({ s with nodes := nodes' }.setNled n0 l).setPc t p') := by
   obtain ⟨d1, d2, d3, d4, d8, d5, d6, d7⟩ := h
   simp only [dview_nled, dview_rled, dview_zn, dview_del, dview_nN, dview_lst, dview_order, dview_log, dview_vpc] at *
@@ -429,8 +479,11 @@ theorem invD_nled {s : St} {t : Tid} (h : InvD s) (n0 : Nat) (l : Led) (p' : Pc)
         · subst hut; exact absurd (hvT n (Or.inr (Or.inr hu))) e
         · exact Or.inr ⟨u, by rw [upd_other _ _ _ _ hut]; exact hu⟩
   · intro x c hx hc
-    obtain ⟨e1, e2, e3⟩ := d3 x c hx hc
-    exact ⟨hdel c e2 e1, e2, e3⟩
+    rcases d3 x c hx hc with ⟨e1, e2, e3⟩ | ⟨u, hu⟩
+    · exact Or.inl ⟨hdel c e2 e1, e2, e3⟩
+    · by_cases hut : u = t
+      · subst hut; exact absurd hu (hne c x)
+      · exact Or.inr ⟨u, by rw [upd_other _ _ _ _ hut]; exact hu⟩
   · intro x hx c hc
     by_cases e : c = n0
     · subst e; rw [upd_same]; exact hlog x hx hc
@@ -476,10 +529,18 @@ theorem invD_pAlo {s : St} {t : Tid} (h : InvD s) (k : Op) (hv : DView (s.pc t) 
   obtain ⟨d1, d2, d3, d4, d8, d5, d6, d7⟩ := h
   simp only [dview_nled, dview_rled, dview_zn, dview_del, dview_nN, dview_lst, dview_order, dview_log, dview_vpc] at *
   have hfresh : s.nled s.nN = .none := (d1 s.nN).2 (Nat.le_refl _)
-  refine ⟨?_, ?_, d3, d4, d8, ?_, ?_, ?_⟩
+  refine ⟨?_, ?_, ?_, d4, d8, ?_, ?_, ?_⟩
   all_goals simp only [dview_nled, dview_rled, dview_zn, dview_del, dview_nN, dview_lst, dview_order, dview_log, dview_vpc,
     setPc_nled, setPc_rled, setPc_recs, setPc_nodes, setPc_nN, setPc_lst, setPc_order, setPc_log, setPc_pc,
     setNled_nled, setNled_rled, setNled_recs, setNled_nodes, setNled_nN, setNled_lst, setNled_order, setNled_log, setNled_pc]
+  rotate_left 2
+  · intro x c hx hc
+    rcases d3 x c hx hc with g | ⟨u, hu⟩
+    · exact Or.inl g
+    · by_cases hut : u = t
+      · subst hut; rw [hv] at hu; cases hu
+      · exact Or.inr ⟨u, by rw [upd_other _ _ _ _ hut]; exact hu⟩
+  rotate_right 2
   · intro n
     by_cases e : n = s.nN
     · subst e; rw [upd_same]; simp
@@ -526,12 +587,13 @@ theorem invD_conR {s : St} {t : Tid} (h : InvD s) (r : Nat) (R : Rec) (p' : Pc)
     (hnc : s.rled r ≠ .cons) (hrl : r ∉ s.log)
     (hoth : ∀ u, u ≠ t → HeldP s.dview (DView (s.pc u)) →
       HeldP { s.dview with rled := upd s.rled r .cons, zn := fun x => ((upd s.recs r R) x).znode } (DView (s.pc u)))
-    (hz : ∀ c, R.znode = some c → (s.nodes c).deleted = true ∧ c ∈ s.order ∧ c ∉ s.lst ∧
+    (hz : ∀ c, R.znode = some c → c ∈ s.order ∧ DView p' = .eMark c none r ∧
       (∀ y, s.rled y = .cons → (s.recs y).znode ≠ some c))
     (hheld : HeldP { s.dview with rled := upd s.rled r .cons, zn := fun x => ((upd s.recs r R) x).znode } (DView p'))
     (hcls : ∀ n, ((∃ k, DView (s.pc t) = .pCons k n ∨ DView (s.pc t) = .pLoad k n) ∨ DView (s.pc t) = .eAlloc n none) →
       R.znode = some n)
-    (hnf : ∀ n, DView (s.pc t) ≠ .dFreN n none) :
+    (hnf : ∀ n, DView (s.pc t) ≠ .dFreN n none)
+    (hne : ∀ c z, DView (s.pc t) ≠ .eMark c none z := by intro c z hv; simp_all [DView]; done) :
     InvD (({ s with recs := upd s.recs r R }.setRled r .cons).setPc t p') := by
   obtain ⟨d1, d2, d3, d4, d8, d5, d6, d7⟩ := h
   simp only [dview_nled, dview_rled, dview_zn, dview_del, dview_nN, dview_lst, dview_order, dview_log, dview_vpc] at *
@@ -550,21 +612,25 @@ theorem invD_conR {s : St} {t : Tid} (h : InvD s) (r : Nat) (R : Rec) (p' : Pc)
   · intro x c hx hc
     by_cases e : x = r
     · subst e; rw [upd_same] at hc
-      obtain ⟨g1, g2, g3, _⟩ := hz c hc
-      exact ⟨g1, g2, g3⟩
-    · rw [upd_other _ _ _ _ e] at hx hc; exact d3 x c hx hc
+      exact Or.inr ⟨t, by rw [upd_same]; exact (hz c hc).2.1⟩
+    · rw [upd_other _ _ _ _ e] at hx hc
+      rcases d3 x c hx hc with g | ⟨u, hu⟩
+      · exact Or.inl g
+      · by_cases hut : u = t
+        · subst hut; exact absurd hu (hne c x)
+        · exact Or.inr ⟨u, by rw [upd_other _ _ _ _ hut]; exact hu⟩
   · intro x y c hx hy hcx hcy
     by_cases ex : x = r <;> by_cases ey : y = r
     · rw [ex, ey]
     · subst ex; rw [upd_same] at hcx; rw [upd_other _ _ _ _ ey] at hy hcy
-      exact absurd hcy ((hz c hcx).2.2.2 y hy)
+      exact absurd hcy ((hz c hcx).2.2 y hy)
     · subst ey; rw [upd_same] at hcy; rw [upd_other _ _ _ _ ex] at hx hcx
-      exact absurd hcx ((hz c hcy).2.2.2 x hx)
+      exact absurd hcx ((hz c hcy).2.2 x hx)
     · rw [upd_other _ _ _ _ ex] at hx hcx; rw [upd_other _ _ _ _ ey] at hy hcy
       exact d4 x y c hx hy hcx hcy
   · intro x c hc
     by_cases e : x = r
-    · subst e; rw [upd_same] at hc; exact (hz c hc).2.1
+    · subst e; rw [upd_same] at hc; exact (hz c hc).1
     · rw [upd_other _ _ _ _ e] at hc; exact d8 x c hc
   · intro x hx c hc
     have e : x ≠ r := fun e => hrl (e ▸ hx)
@@ -605,6 +671,13 @@ theorem invD_dFreN {s : St} {t : Tid} (h : InvD s) (m : Nat) (nx : Option Nat)
     · by_cases hut : u = t
       · subst hut; rw [hv] at hu; injection hu with hu; exact absurd hu.symm hne
       · rw [hoth u hut] at hu; cases hu
+  have hd3 : ∀ x c, s.rled x = .cons → (s.recs x).znode = some c → (s.nodes c).deleted = true ∧ c ∈ s.order ∧ c ∉ s.lst := by
+    intro x c hx hc
+    rcases d3 x c hx hc with g | ⟨u, hu⟩
+    · exact g
+    · by_cases hut : u = t
+      · subst hut; rw [hv] at hu; cases hu
+      · rw [hoth u hut] at hu; cases hu
   have hsubE : ∀ y, y ∈ s.lst.erase m → y ∈ s.lst ∧ y ≠ m := by
     intro y hy
     exact ⟨List.mem_of_mem_erase hy, fun e => by subst e; exact (List.Nodup.mem_erase_iff hnd).1 hy |>.1 rfl⟩
@@ -636,14 +709,14 @@ theorem invD_dFreN {s : St} {t : Tid} (h : InvD s) (m : Nat) (nx : Option Nat)
     obtain ⟨h1, h2⟩ := hsubE n hn
     rw [upd_other _ _ _ _ h2]; exact Or.inl (hcons n h1 h2)
   · intro x c hx hc
-    obtain ⟨e1, e2, e3⟩ := d3 x c hx hc
-    exact ⟨e1, e2, fun hm' => e3 (hsubE c hm').1⟩
+    obtain ⟨e1, e2, e3⟩ := hd3 x c hx hc
+    exact Or.inl ⟨e1, e2, fun hm' => e3 (hsubE c hm').1⟩
   · exact d4
   · exact d8
   · intro x hx c hc
     have e : c ≠ m := by
       intro e; subst e
-      exact (d3 x c (hlc x hx) hc).2.2 hm
+      exact (hd3 x c (hlc x hx) hc).2.2 hm
     rw [upd_other _ _ _ _ e]; exact d5 x hx c hc
   · intro u
     by_cases hut : u = t
@@ -679,6 +752,7 @@ theorem upd_self {α : Type} (f : Tid → α) (t : Tid) : upd f t (f t) = f := b
 /-- record a D-view holds -/
 def heldRec : Pc → Option Nat
   | .eZh _ z => some z
+  | .eMark _ _ z => some z
   | .regCons _ r => some r
   | .rZn _ m | .rDesN _ m _ | .rFreN _ m _ | .rNext _ m => some m
   | _ => none
@@ -692,7 +766,7 @@ theorem heldRec_priv {p : Pc} {m : Nat} (h : heldRec (DView p) = some m) : privR
 /-- `HeldP` of a view that does not hold record `r` survives the construction of `r` -/
 theorem heldP_conR {d : DSt} {v : Pc} {r : Nat} {zn' : Nat → Option Nat} (h : HeldP d v)
     (hz : ∀ x, x ≠ r → zn' x = d.zn x) (hne : heldRec v ≠ some r)
-    (hnr : zn' r = none ∨ ∀ c o, v ≠ .eMark c o ∧ v ≠ .eAlloc c o) :
+    (hnr : zn' r = none ∨ ∀ c o, v ≠ .eAlloc c o) :
     HeldP { d with rled := upd d.rled r .cons, zn := zn' } v := by
   cases v <;> simp only [HeldP, NoRec, heldRec] at h hne ⊢ <;> try trivial
   all_goals first
@@ -704,7 +778,7 @@ theorem heldP_conR {d : DSt} {v : Pc} {r : Nat} {zn' : Nat → Option Nat} (h : 
        · subst e
          rcases hnr with g | g
          · rw [g]; simp
-         · exact absurd rfl (by first | exact (g _ _).1 | exact (g _ _).2)
+         · exact absurd rfl (g _ _)
        · rw [upd_other _ _ _ _ e] at hx; rw [hz x e]; exact h.1 x hx)
 
 /-- steps invisible to layer D (the view of `t` does not change either) -/
@@ -714,7 +788,7 @@ theorem invD_quiet {s s' : St} {t : Tid} (h : InvD s) (p' : Pc)
     (h7 : s'.order = s.order) (h8 : s'.log = s.log) (h9 : s'.pc = upd s.pc t p') (hv : DView p' = DView (s.pc t)) :
     InvD s' := by
   have hzn : s'.dview.zn = s.dview.zn := by funext x; exact h3 x
-  refine invD_gen (t := t) h p' h1 (fun x hx => by rw [← h2]; exact hx) (fun x hx hn => absurd (by rw [h2]; exact hx) hn) h3
+  refine invD_gen (t := t) (hzd := fun c z hz => Or.inl (by rw [hv]; exact hz)) h p' h1 (fun x hx => by rw [← h2]; exact hx) (fun x hx hn => absurd (by rw [h2]; exact hx) hn) h3
     (fun c _ hd => by rw [h4]; exact hd) h5 (fun x hx => Or.inl (by rw [← h6]; exact hx)) (fun x hx => Or.inl (by rw [h6]; exact hx))
     (fun x hx => by rw [h7]; exact hx) (fun x hx => Or.inl (by rw [← h8]; exact hx)) h9 ?_ ?_ ?_
   · rw [hv]
@@ -725,9 +799,10 @@ theorem invD_quiet {s s' : St} {t : Tid} (h : InvD s) (p' : Pc)
 /-- pure pc move with a new view -/
 theorem invD_pcmove {s : St} {t : Tid} (h : InvD s) (p' : Pc) (hheld : HeldP s.dview (DView p'))
     (hlst : ∀ n, DView (s.pc t) ≠ .dFreN n none)
-    (hcls : ∀ n k, DView (s.pc t) ≠ .pCons k n ∧ DView (s.pc t) ≠ .pLoad k n ∧ DView (s.pc t) ≠ .eAlloc n none) :
+    (hcls : ∀ n k, DView (s.pc t) ≠ .pCons k n ∧ DView (s.pc t) ≠ .pLoad k n ∧ DView (s.pc t) ≠ .eAlloc n none)
+    (hne : ∀ c z, DView (s.pc t) ≠ .eMark c none z := by intro c z hv; simp_all [DView]; done) :
     InvD (s.setPc t p') := by
-  refine invD_gen (t := t) h p' rfl (fun _ hx => hx) (fun _ hx hn => absurd hx hn) (fun _ => rfl) (fun _ _ hd => hd) rfl
+  refine invD_gen (t := t) (hzd := fun c z hz => absurd hz (hne c z)) h p' rfl (fun _ hx => hx) (fun _ hx hn => absurd hx hn) (fun _ => rfl) (fun _ _ hd => hd) rfl
     (fun x hx => Or.inl hx) (fun x hx => Or.inl hx) (fun x hx => hx) (fun x hx => Or.inl hx) rfl hheld ?_ ?_
   · intro n hn; exact absurd hn (hlst n)
   · intro n hn
@@ -843,27 +918,22 @@ theorem invD_step_con {s s' : St} {t : Tid} {e : Ev} (hi : Inv s) (hs : Step s t
     have hw := hi.c.wr t
     simp only [cview_vpc, hpc, CView, WriterP, cview_lst, cview_order, cview_nodes] at hw
     have hholder : holdsW (s.pc t) = true := by simp [hpc, holdsW]
-    refine invD_conR (t := t) h z { next := none, owner := none, znode := some c } (.eZh orig z)
+    refine invD_conR (t := t) h z { next := none, owner := none, znode := some c } (.eMark c orig z)
       (by rw [hp.2]; simp) hp.1 ?_ ?_ ?_ ?_ (fun n hn => by simp [hpc, DView] at hn)
     · intro u hut hu
       refine heldP_conR (d := s.dview) hu (fun x hx => by simp [upd_other _ _ _ _ hx]) ?_ (Or.inr ?_)
       · intro hc
         exact hut (hpu u t z (heldRec_priv hc) (by simp [hpc, BView, privRec]))
-      · intro c' o'
-        constructor <;> intro hv
-        · have := dview_writer (p := s.pc u) (Or.inr (Or.inl ⟨c', o', Or.inl hv⟩))
-          have a := (hi.a.wm u).1 this
-          have b := (hi.a.wm t).1 hholder
-          rw [a] at b; injection b with b; exact hut b
-        · have := dview_writer (p := s.pc u) (Or.inr (Or.inl ⟨c', o', Or.inr hv⟩))
-          have a := (hi.a.wm u).1 this
-          have b := (hi.a.wm t).1 hholder
-          rw [a] at b; injection b with b; exact hut b
+      · intro c' o' hv
+        have := dview_writer (p := s.pc u) (Or.inr (Or.inl ⟨c', o', Or.inr hv⟩))
+        have a := (hi.a.wm u).1 this
+        have b := (hi.a.wm t).1 hholder
+        rw [a] at b; injection b with b; exact hut b
     · intro c' hc'
       simp only at hc'; injection hc' with hc'; subst hc'
-      exact ⟨hw.2.2.1, hw.2.1, hw.1, hh.1⟩
+      exact ⟨hi.c.sub _ hw.1, rfl, hh.1⟩
     · simp only [DView, HeldP, dview_nled, upd_same]
-      exact ⟨c, rfl, hh.2⟩
+      exact ⟨trivial, hh.2⟩
     · intro n hn
       rcases hn with ⟨k, hn | hn⟩ | hn <;> simp [hpc, DView] at hn
       simp [hn]
@@ -897,7 +967,7 @@ theorem invD_step_des {s s' : St} {t : Tid} {e : Ev} (hi : Inv s) (hs : Step s t
     simp only [bview_vpc, hpc, BView, privLed, bview_log, bview_rled] at hp
     have hh := h.held t
     simp only [dview_vpc, hpc, DView, HeldP, dview_zn, dview_nled] at hh
-    have hzd := h.zdel m d hp.2 hh.1
+    have hzd := zdel_priv hi hpr (by intro c z hv; simp [hpc, DView] at hv) hp.2 hh.1
     have hlc := hi.b.logCons
     simp only [bview_log, bview_rled] at hlc
     refine invD_nled (t := t) h d .dest (.rFreN r m d) s.nodes (fun _ _ hd => hd)
@@ -917,7 +987,7 @@ theorem invD_step_des {s s' : St} {t : Tid} {e : Ev} (hi : Inv s) (hs : Step s t
     simp only [bview_vpc, hpc, BView, privLed, bview_log, bview_rled] at hp
     have hh := h.held t
     simp only [dview_vpc, hpc, DView, HeldP, dview_zn, dview_nled] at hh
-    have hzd := h.zdel m d hp.2 hh.1
+    have hzd := zdel_priv hi hpr (by intro c z hv; simp [hpc, DView] at hv) hp.2 hh.1
     have hlc := hi.b.logCons
     simp only [bview_log, bview_rled] at hlc
     refine invD_nled (t := t) h d .dest (.dFreZN m nx d) s.nodes (fun _ _ hd => hd)
@@ -944,7 +1014,7 @@ theorem invD_step_des {s s' : St} {t : Tid} {e : Ev} (hi : Inv s) (hs : Step s t
       (Or.inr (Or.inl hml)) ?_
     · simp only [DView, HeldP, upd_same]
     · intro x hx hc
-      exact absurd hml (h.zdel x m (hlc x hx) hc).2.2
+      exact absurd hml (zdel_log hi hx hc).2.2
     · intro n' hn'
       rcases hn' with ⟨k, hn' | hn'⟩ | hn' | hn' <;> simp [hpc, DView] at hn'
   case rDesZ r m nx hpc =>
@@ -997,7 +1067,7 @@ theorem invD_step_fre {s s' : St} {t : Tid} {e : Ev} (hi : Inv s) (hs : Step s t
     simp only [bview_vpc, hpc, BView, privLed, bview_log, bview_rled] at hp
     have hh := h.held t
     simp only [dview_vpc, hpc, DView, HeldP, dview_zn, dview_nled] at hh
-    have hzd := h.zdel m d hp.2 hh.1
+    have hzd := zdel_priv hi hpr (by intro c z hv; simp [hpc, DView] at hv) hp.2 hh.1
     have hlc := hi.b.logCons
     simp only [bview_log, bview_rled] at hlc
     refine invD_nled (t := t) h d .freed (.rNext r m) s.nodes (fun _ _ hd => hd)
@@ -1018,7 +1088,7 @@ theorem invD_step_fre {s s' : St} {t : Tid} {e : Ev} (hi : Inv s) (hs : Step s t
     simp only [bview_vpc, hpc, BView, privLed, bview_log, bview_rled] at hp
     have hh := h.held t
     simp only [dview_vpc, hpc, DView, HeldP, dview_zn, dview_nled] at hh
-    have hzd := h.zdel m d hp.2 hh.1
+    have hzd := zdel_priv hi hpr (by intro c z hv; simp [hpc, DView] at hv) hp.2 hh.1
     have hlc := hi.b.logCons
     simp only [bview_log, bview_rled] at hlc
     refine invD_nled (t := t) h d .freed (.dDesZ m nx) s.nodes (fun _ _ hd => hd)
@@ -1214,8 +1284,8 @@ theorem invD_step_ast {s s' : St} {t : Tid} {e : Ev} (hi : Inv s) (hs : Step s t
       by_cases e : c = n
       · subst e; rw [upd_same]
       · rw [upd_other _ _ _ _ e]) rfl rfl rfl rfl rfl (by simp [hpc, DView])
-  case eFixNext c orig p xx o hpc ho =>
-    exact invD_quiet (t := t) h (.eAlloc c orig) rfl rfl (fun _ => rfl) (fun c => by
+  case eFixNext c orig p xx z o hpc ho =>
+    exact invD_quiet (t := t) h (.eZh orig z) rfl rfl (fun _ => rfl) (fun c => by
       simp only [setPc_nodes, setBack_nodes]
       by_cases e : c = xx
       · subst e; rw [upd_same]
@@ -1271,12 +1341,21 @@ theorem invD_step_ast {s s' : St} {t : Tid} {e : Ev} (hi : Inv s) (hs : Step s t
     · intro n' hn'
       rcases hn' with ⟨k', hn' | hn'⟩ | hn' <;> simp [hpc, DView] at hn'
       right; right; left; rw [← hn'.2]; exact List.mem_append_right _ (by simp)
-  case eUnlPrev c orig pp x o hpc ho =>
+  case eUnlPrev c orig pp x z o hpc ho =>
     have hh := h.held t
-    simp only [dview_vpc, hpc, DView] at hh
-    refine invD_gen (t := t) h (.eFix c orig (some pp) x) rfl (fun _ hx => hx) (fun _ hx hn => absurd hx hn) (fun _ => rfl)
+    simp only [dview_vpc, hpc, DView, HeldP, dview_zn, dview_nled] at hh
+    have hp := hi.b.privOk t z (by simp [hpc, BView, privRec])
+    simp only [bview_vpc, hpc, BView, privLed, bview_rled] at hp
+    have hw := hi.c.wr t
+    simp only [cview_vpc, hpc, CView, WriterP, cview_lst, cview_nodes] at hw
+    have hnd : s.lst.Nodup := hi.c.lstNd
+    have hppc : pp ≠ c := by
+      intro e; subst e
+      exact not_mem_below_self hnd (head_mem_below hw.2.2.2.1.2)
+    refine invD_gen (t := t) h (.eFix c orig (some pp) x z) rfl (fun _ hx => hx) (fun _ hx hn => absurd hx hn) (fun _ => rfl)
       ?_ rfl (fun y hy => Or.inl (List.mem_of_mem_erase hy)) ?_ (fun y hy => hy)
-      (fun y hy => Or.inl hy) rfl ?_ (fun n hn => by simp [hpc, DView] at hn) (fun n hn => by rcases hn with ⟨k, hn | hn⟩ | hn <;> simp [hpc, DView] at hn)
+      (fun y hy => Or.inl hy) rfl ?_ (fun n hn => by simp [hpc, DView] at hn)
+      (fun n hn => by rcases hn with ⟨k, hn | hn⟩ | hn <;> simp [hpc, DView] at hn) ?_
     · intro c' _ hd
       simp only [setPc_nodes, setNext_nodes]
       by_cases e : c' = pp
@@ -1284,20 +1363,38 @@ theorem invD_step_ast {s s' : St} {t : Tid} {e : Ev} (hi : Inv s) (hs : Step s t
       · rw [upd_other _ _ _ _ e]; exact hd
     · intro y hy
       by_cases e : y = c
-      · subst e; right; simp [DView]
+      · subst e; right; exact ⟨z, hp.2, hh.1⟩
       · left; exact (List.mem_erase_of_ne e).2 hy
-    · simp only [DView]; exact heldP_mono (d := s.dview) (v := .eAlloc c none) (by simpa [HeldP] using hh) rfl rfl (fun _ hx => hx)
-  case eUnlHead c orig x o hpc ho =>
+    · simp only [DView, HeldP, dview_zn, dview_nled]; exact ⟨c, hh.1, hh.2⟩
+    · intro c' z' hv
+      simp only [hpc, DView] at hv
+      injection hv with hv1 _ hv3; subst hv1; subst hv3
+      right
+      refine ⟨?_, hi.c.sub _ hw.1, fun hm => (List.Nodup.mem_erase_iff hnd).1 hm |>.1 rfl⟩
+      simp only [setPc_nodes, setNext_nodes, upd_other _ _ _ _ (Ne.symm hppc)]
+      exact hw.2.1
+  case eUnlHead c orig x z o hpc ho =>
     have hh := h.held t
-    simp only [dview_vpc, hpc, DView] at hh
-    refine invD_gen (t := t) h (.eFix c orig none x) rfl (fun _ hx => hx) (fun _ hx hn => absurd hx hn) (fun _ => rfl)
+    simp only [dview_vpc, hpc, DView, HeldP, dview_zn, dview_nled] at hh
+    have hp := hi.b.privOk t z (by simp [hpc, BView, privRec])
+    simp only [bview_vpc, hpc, BView, privLed, bview_rled] at hp
+    have hw := hi.c.wr t
+    simp only [cview_vpc, hpc, CView, WriterP, cview_lst, cview_nodes] at hw
+    have hnd : s.lst.Nodup := hi.c.lstNd
+    refine invD_gen (t := t) h (.eFix c orig none x z) rfl (fun _ hx => hx) (fun _ hx hn => absurd hx hn) (fun _ => rfl)
       (fun _ _ hd => hd) rfl (fun y hy => Or.inl (List.mem_of_mem_erase hy)) ?_ (fun y hy => hy)
-      (fun y hy => Or.inl hy) rfl ?_ (fun n hn => by simp [hpc, DView] at hn) (fun n hn => by rcases hn with ⟨k, hn | hn⟩ | hn <;> simp [hpc, DView] at hn)
+      (fun y hy => Or.inl hy) rfl ?_ (fun n hn => by simp [hpc, DView] at hn)
+      (fun n hn => by rcases hn with ⟨k, hn | hn⟩ | hn <;> simp [hpc, DView] at hn) ?_
     · intro y hy
       by_cases e : y = c
-      · subst e; right; simp [DView]
+      · subst e; right; exact ⟨z, hp.2, hh.1⟩
       · left; exact (List.mem_erase_of_ne e).2 hy
-    · simp only [DView]; exact heldP_mono (d := s.dview) (v := .eAlloc c none) (by simpa [HeldP] using hh) rfl rfl (fun _ hx => hx)
+    · simp only [DView, HeldP, dview_zn, dview_nled]; exact ⟨c, hh.1, hh.2⟩
+    · intro c' z' hv
+      simp only [hpc, DView] at hv
+      injection hv with hv1 _ hv3; subst hv1; subst hv3
+      right
+      exact ⟨hw.2.1, hi.c.sub _ hw.1, fun hm => (List.Nodup.mem_erase_iff hnd).1 hm |>.1 rfl⟩
 
 theorem invD_step_cas {s s' : St} {t : Tid} {e : Ev} (hi : Inv s) (hs : Step s t e s') (he : e.kind = .cas) : InvD s' := by
   have h := hi.d
@@ -1361,17 +1458,23 @@ theorem invD_step_plain {s s' : St} {t : Tid} {e : Ev} (hi : Inv s) (hs : Step s
     simp only [DView, HeldP, NoRec, dview_rled, dview_zn, dview_nled]
     constructor
     · intro x hx hc
-      have := (h.zdel x c hx hc).1
-      simp only [dview_del] at this
-      rw [hv] at this; cases this
+      rcases h.zdel x c hx hc with g | ⟨u, hu⟩
+      · have := g.1
+        simp only [dview_del] at this
+        rw [hv] at this; cases this
+      · simp only [dview_vpc] at hu
+        have a := (hi.a.wm u).1 (dview_writer (Or.inr (Or.inl ⟨c, none, Or.inl ⟨x, hu⟩⟩)))
+        have b := (hi.a.wm t).1 hholder
+        rw [a] at b; injection b with b; subst b
+        simp [hpc, DView] at hu
     · rcases h.lstCons c hcl with f | ⟨u, hu⟩
       · exact f
       · have := hi.a.dtd u (dview_dtor (Or.inr ⟨c, none, hu⟩))
         rw [hdt] at this; cases this
-  case eMark c orig hpc =>
+  case eMark c orig z hpc =>
     have hh := h.held t
     simp only [dview_vpc, hpc, DView] at hh
-    refine invD_gen (t := t) h (.eBack c orig) rfl (fun _ hx => hx) (fun _ hx hn => absurd hx hn) (fun _ => rfl)
+    refine invD_gen (t := t) h (.eBack c orig z) rfl (fun _ hx => hx) (fun _ hx hn => absurd hx hn) (fun _ => rfl)
       ?_ rfl (fun y hy => Or.inl hy) (fun y hy => Or.inl hy) (fun y hy => hy)
       (fun y hy => Or.inl hy) rfl ?_ (fun n hn => by simp [hpc, DView] at hn) (fun n hn => by rcases hn with ⟨k, hn | hn⟩ | hn <;> simp [hpc, DView] at hn)
     · intro c' _ hd
@@ -1379,7 +1482,22 @@ theorem invD_step_plain {s s' : St} {t : Tid} {e : Ev} (hi : Inv s) (hs : Step s
       by_cases e : c' = c
       · subst e; rw [upd_same]
       · rw [upd_other _ _ _ _ e]; exact hd
-    · simp only [DView]; exact heldP_mono (d := s.dview) (v := .eMark c none) (by simpa [HeldP] using hh) rfl rfl (fun _ hx => hx)
+    · simp only [DView]; exact heldP_mono (d := s.dview) (v := .eMark c none z) (by simpa [HeldP] using hh) rfl rfl (fun _ hx => hx)
+
+theorem invD_step_afl {s s' : St} {t : Tid} {e : Ev} (hi : Inv s) (hs : Step s t e s') (he : e.kind = .afl) : InvD s' := by
+  have h := hi.d
+  cases hs <;> cases he
+  all_goals (try (frameD h; done))
+  case eAloFail c orig hpc =>
+    have hw := hi.c.wr t
+    simp only [cview_vpc, hpc, CView, WriterP, cview_lst] at hw
+    refine invD_gen (t := t) h (.pThrown (.erase true)) rfl (fun _ hx => hx) (fun _ hx hn => absurd hx hn) (fun _ => rfl)
+      (fun _ _ hd => hd) rfl (fun y hy => Or.inl hy) (fun y hy => Or.inl hy) (fun y hy => hy)
+      (fun y hy => Or.inl hy) rfl (by simp [DView, HeldP]) (fun n hn => by simp [hpc, DView] at hn) ?_
+    intro n hn
+    rcases hn with ⟨k, hn | hn⟩ | hn <;> simp [hpc, DView] at hn
+    subst hn
+    exact Or.inr (Or.inr (Or.inl hw.1))
 
 theorem invD_step {s s' : St} {t : Tid} {e : Ev} (hi : Inv s) (hs : Step s t e s') : InvD s' := by
   cases hk : e.kind
@@ -1389,6 +1507,7 @@ theorem invD_step {s s' : St} {t : Tid} {e : Ev} (hi : Inv s) (hs : Step s t e s
   · exact invD_step_mlk hi hs hk
   · exact invD_step_mul hi hs hk
   · exact invD_step_alo hi hs hk
+  · exact invD_step_afl hi hs hk
   · exact invD_step_con hi hs hk
   · exact invD_step_des hi hs hk
   · exact invD_step_fre hi hs hk
